@@ -115,6 +115,7 @@ def observe(arg):
                     continue            # no coefficients for this ion: outside the clause
                 out.append({"ev": "f0", "id": t["id"], "z": z, "q": q, "at0": dec.enc(float(v0)),
                             "beyond": dec.enc(float(at.xray.f0(24 * np.pi * 1.0001))),
+                            "edge": dec.enc(float(at.xray.f0(24 * np.pi))),
                             "inside": dec.enc(float(at.xray.f0(t["Q"])))})
         except Exception as e:
             import traceback
